@@ -31,7 +31,17 @@ func TestDeterminismDebug(t *testing.T) {
 		p.Seed = seed
 		return e.Execute("C20", p, true)
 	}
-	a, b := mk(), mk()
+	a := mk()
+	if f := os.Getenv("VERIF_DET_DUMP"); f != "" {
+		out := ""
+		for _, l := range a.Log.Lines {
+			out += l + "\n"
+		}
+		_ = os.WriteFile(f, []byte(out), 0644)
+		fmt.Println("digest", a.Log.Digest()[:12], len(a.Log.Lines))
+		return
+	}
+	b := mk()
 	fmt.Println("digests", a.Log.Digest()[:12], b.Log.Digest()[:12], len(a.Log.Lines), len(b.Log.Lines))
 	for i := 0; i < len(a.Log.Lines) && i < len(b.Log.Lines); i++ {
 		if a.Log.Lines[i] != b.Log.Lines[i] {
